@@ -227,3 +227,21 @@ Proof.
   apply (split_pushes_equal_one K dm cfg db Hdry fs 0%nat segs fs_end n_end Hc fs fresh [] rest); [|intros s []|exact Hin].
   split; [apply wsim_refl|]. exists [], []. cbn [app a_applied fresh]. repeat split; constructor.
 Qed.
+
+(* ... down to the trees: when two runs end in states whose names read the same and both are saved, the two trees
+   read the same - name by name, lines, existence, effective mode (premises of the save theorem on both sides) *)
+Theorem saved_trees_agree K dm fsA ovA fsA1 clA fsC ovC fsC1 clC :
+  wsim K dm fsA ovA fsC ovC ->
+  fs_fault fsA = None -> save_all dm ovA [] fsA = (fsA1, ROk clA) ->
+  keys_indep ovA -> Forall (entry_start_ok fsA) ovA -> Forall (entry_ok dm) ovA ->
+  (forall k, okkey K k -> ov_get k ovA = None -> Forall (fun e => indep (normalize k) (kpath e)) ovA) ->
+  fs_fault fsC = None -> save_all dm ovC [] fsC = (fsC1, ROk clC) ->
+  keys_indep ovC -> Forall (entry_start_ok fsC) ovC -> Forall (entry_ok dm) ovC ->
+  (forall k, okkey K k -> ov_get k ovC = None -> Forall (fun e => indep (normalize k) (kpath e)) ovC) ->
+  wsim K dm (fst (clean_all clA fsA1)) [] (fst (clean_all clC fsC1)) [].
+Proof.
+  intros Hw HfA HsA HiA HstA HeA HoA HfC HsC HiC HstC HeC HoC.
+  pose proof (saved_tree_reads_as_overlay K dm ovA fsA fsA1 clA HfA HsA HiA HstA HeA HoA) as HA.
+  pose proof (saved_tree_reads_as_overlay K dm ovC fsC fsC1 clC HfC HsC HiC HstC HeC HoC) as HC.
+  eapply wsim_trans; [apply wsim_sym; exact HA|]. eapply wsim_trans; [exact Hw|exact HC].
+Qed.
